@@ -314,7 +314,14 @@ def check_list(out, seen, cx, name, idx, digs):
     # ---------------- (b) model vs circuit on a physical affine basis of the feasible set
     phys = cx.phys_points()
     # 'all': the full physical affine basis; other lists: the generic displaced point (wiring / order of the list)
-    pts = range(len(phys)) if name == "all" else (len(phys) - 1,)
+    pts = list(range(len(phys))) if name == "all" else [len(phys) - 1]
+    if name == "all":
+        # the circuit route is not affine in the unknown (outcomes below eps_zero are dropped, branch buffers are concatenated):
+        # the named alphabet objects, with exactly impossible outcomes at the first / last positions, are run as well
+        named = [x for (_, _, x) in K.true_objects(cx)]
+        phys = list(phys) + named
+        pts += list(range(len(phys) - len(named), len(phys)))
+        out.count("circuit_named_objects", len(named))
     for k in pts:
         x = phys[k]
         born = cx.born_all(x, sorted(set(pairs)))
@@ -360,6 +367,21 @@ def check_list(out, seen, cx, name, idx, digs):
                 if not g:
                     K.fail_once(out, seen, "calc_prob_dist:%sdiffers:%s" % (cls, tag if not mixed else tomo),
                                 "%s point %d schedule %d: deviation %.3g" % (where, k, si, e))
+        # -- the same candidate handed over in other memory layouts (Fortran-ordered, non-contiguous view): same prediction
+        if name == "all" and k == len(cx.phys_points()) - 1:
+            for lay in ("F", "strided"):
+                okl, lobj = A.call(cx.F.make, x, on_para_eq_constraint=flag, layout=lay)
+                okq, pl = A.call(qt.calc_prob_dists, lobj) if okl else (False, lobj)
+                out.ops += 1
+                out.count("layout_candidates")
+                if not okq:
+                    K.fail_once(out, seen, "calc_prob_dists:raises:candidate-layout=%s:%s" % (lay, tomo), "%s: %s" % (where, A.fmt_exc(pl)))
+                    continue
+                rl = rows_of(pl)
+                if len(rl) != len(ref_rows) or any(r.shape != q.shape for r, q in zip(rl, ref_rows)) or \
+                        max(float(np.abs(r - q).max()) for r, q in zip(rl, ref_rows)) > K.TOL:
+                    K.fail_once(out, seen, "calc_prob_dists:values-differ:candidate-layout=%s:%s" % (lay, tomo),
+                                "%s: the prediction for the same candidate values held in a %s array differs from the Born rule" % (where, lay))
         # -- the circuit
         okg, gs = A.call(qt.generate_prob_dists_sequence, obj)
         out.ops += 1
